@@ -12,6 +12,7 @@ import (
 
 type C06Case struct {
 	File  *File   `json:"file"`
+	Switches map[string]string `json:"switches,omitempty"`
 	Auto  AutoCfg `json:"auto,omitempty"`
 	Clash string  `json:"clash,omitempty"` // "text" / "movement": a user statement named like a generated label was added
 	Name  string  `json:"name,omitempty"`  // the clashing name
@@ -34,11 +35,19 @@ func checkC06(c *C06Case) *Violation {
 	st := stat("C06")
 	src := c06Src(c)
 	fc := RepoFonts()
-	bind, ferr := ComputeBinding(c.File, fc, "", 0)
+	model := c.File
+	if c.Switches != nil {
+		r, ok := Resolve(model, c.Switches)
+		if !ok {
+			panic("harness: C06 poryswitches always have a fallback")
+		}
+		model = r
+	}
+	bind, ferr := ComputeBinding(model, fc, "", 0)
 	if ferr != nil {
 		panic("harness: format failed in the generated domain: " + ferr.Error())
 	}
-	res := Compile(src, Opts{Optimize: true, Auto: c.Auto, FontPath: "@repo"})
+	res := CompileMaybeLM(src, Opts{Optimize: true, Auto: c.Auto, FontPath: "@repo", Switches: c.Switches})
 	if res.Panic != nil || res.Budget {
 		return viol("crash", "%s\n--- source\n%s", res.Describe(), src)
 	}
@@ -66,8 +75,8 @@ func checkC06(c *C06Case) *Violation {
 	nInline := 0
 	var verr *Violation
 	seen := map[*Cmd]bool{}
-	_, blocks := EntryBlocks(c.File)
-	names, _ := EntryBlocks(c.File)
+	_, blocks := EntryBlocks(model)
+	names, _ := EntryBlocks(model)
 	for _, n := range names {
 		walkCmdsOrdered(blocks[n], func(cmd *Cmd) {
 			if verr != nil || seen[cmd] {
@@ -179,7 +188,18 @@ func genC06(t *rapid.T) *C06Case {
 	cfg.CF.MaxDepth = 3
 	cfg.Raws, cfg.Marts = false, false
 	cfg.MaxTops = 5
+	withPS := rapid.IntRange(0, 2).Draw(t, "withps") == 0
+	if withPS {
+		// inline data inside selected, fallback and unselected poryswitch cases
+		cfg.CF.PS = 6
+		cfg.CF.PSNoDirectContinue = true
+		cfg.CF.PSNestedFallback = true
+		cfg.CF.PSAlwaysFallback = true
+	}
 	c := &C06Case{File: GenFile(t, cfg), Auto: c06Auto}
+	if withPS {
+		c.Switches = map[string]string{"V": rapid.SampledFrom([]string{"A", "B", "1", "zz"}).Draw(t, "swV"), "W": rapid.SampledFrom([]string{"A", "B", "q"}).Draw(t, "swW")}
+	}
 	// AutoVar commands may occur several times: make each occurrence identifiable
 	{
 		names, blocks := EntryBlocks(c.File)
